@@ -109,6 +109,11 @@ def scope_cases(draw, depth=4):
                 ["('r%da', 'r%db')" % (k, k), "('r%d',)" % k, "()", "None"]))
             el["stmts"]["repeat"] = [[n], ["const", seq]]
             mine.add(n)
+        if draw(st.integers(0, 4)) == 0:
+            # rendered in place, but through the macro calling convention
+            # (copy of the variables; globals merged back afterwards)
+            counter[0] += 1
+            el["extra_attrs"] = [' metal:define-macro="m%d"' % counter[0]]
         kids = [probe(names + gnames, 0)]
         if d > 0:
             for _ in range(draw(st.integers(0, 2))):
@@ -145,8 +150,30 @@ def flat_model(nodes, env):
     flat = dict(it.frames[0])
     it.frames = [flat]
     marker = object()
+    rc = {}         # the render-wide dictionary of global definitions
+
+    def same(a, b):
+        # stands for "is the same object": the generator's global values are
+        # constants of distinct value per site, or singletons
+        return type(a) is type(b) and a == b
 
     def elem_body(el):
+        if el.get("extra_attrs") and not el.get("_in_macro"):
+            # in-place macro: the body works on a copy of the variables;
+            # afterwards the globals it (re)defined are copied back
+            before = dict(rc)
+            saved_flat = dict(flat)
+            el["_in_macro"] = True
+            try:
+                elem_body(el)
+            finally:
+                el.pop("_in_macro")
+            flat.clear()
+            flat.update(saved_flat)
+            for k, v in rc.items():
+                if k not in before or not same(before[k], v):
+                    flat[k] = v
+            return
         st_ = el["stmts"]
         saved = []
         for scope, names, e in st_.get("define", ()):
@@ -157,6 +184,8 @@ def flat_model(nodes, env):
                     saved.append((n, flat.get(n, marker)))
             for n, x in zip(names, vals):
                 flat[n] = x
+                if scope == "global":
+                    rc[n] = x
         it.guards(el, 0)
         for n, old in reversed(saved):
             if old is marker:
@@ -199,7 +228,7 @@ def flat_model(nodes, env):
 class ScopePart(Part):
     name = "scope"
     examples = {"quick": 1500, "thorough": 40000}
-    floors = {"shadow": 0.3}
+    floors = {"shadow": 0.3, "global_in_macro": 0.03}
 
     def strategy(self, tier):
         return scope_cases(depth=3 if tier == "quick" else 4)
@@ -239,6 +268,12 @@ class ScopePart(Part):
         if any(sc == "global" for e in elems(case["nodes"])
                for sc, _, _ in e["stmts"].get("define", ())):
             yield "global"
+        for e in elems(case["nodes"]):
+            if e.get("extra_attrs") and any(
+                    sc == "global" for e2 in [e] + list(elems(e["children"]))
+                    for sc, _, _ in e2["stmts"].get("define", ())):
+                yield "global_in_macro"
+                break
 
     def sample(self, case):
         return {"source": self.source(case), "bindings": case["bindings"]}
